@@ -47,7 +47,9 @@ TEMPLATES = ['http://h0.test/v1/%(name)s/check', 'http://h1.test/%(id)s',
              'https://s1.test/p/%(name)s',
              # the URL is a %-template: a literal percent is written %%
              'http://plain.test/authz?realm=dev%%2Fops',
-             'https://s2.test/q?x=50%%25&n=%(name)s']
+             'https://s2.test/q?x=50%%25&n=%(name)s',
+             # a target key with characters outside [A-Za-z0-9_.-]
+             'http://h2.test/net/%(provider:network_type)s/x']
 PNAMES = ['svc:get', 'p', 'compute:servers:create', 'rule with space']
 CT_FORM = 'application/x-www-form-urlencoded'
 CT_JSON = 'application/json'
@@ -141,7 +143,8 @@ def gen_decision(rng):
               'id': rng.randint(0, 99),
               'nested': rng.choice([{'k': [1, {'z': None}]}, {}, [1, 'two'],
                                     {'deep': {'deeper': {'v': 'x'}}}]),
-              'project_id': 'p-1'}
+              'project_id': 'p-1',
+              'provider:network_type': rng.choice(['vxlan', 'flat'])}
     if rng.random() < 0.35:
         target['auth_token'] = 'tok-123'
         if isinstance(target['nested'], dict):
